@@ -86,13 +86,13 @@ func (ex *exec) fmtNative(v value) interface{} {
 		// error / Stringer
 		if _, isFake := x.t.(*fakeType); !isFake {
 			if ex.hasMethod(x.t, "Error") != nil {
-				if fn := ex.prog.LookupMethod(x.t, nil, "Error"); fn != nil {
+				if fn := ex.lookupExported(x.t, "Error"); fn != nil {
 					r := ex.call(nil, 0, fn, []value{x.v})
 					return ex.fmtNative(r)
 				}
 			}
 			if ex.hasMethod(x.t, "String") != nil {
-				if fn := ex.prog.LookupMethod(x.t, nil, "String"); fn != nil && len(fn.Params) == 1 {
+				if fn := ex.lookupExported(x.t, "String"); fn != nil && len(fn.Params) == 1 {
 					r := ex.call(nil, 0, fn, []value{x.v})
 					return ex.fmtNative(r)
 				}
@@ -229,7 +229,7 @@ func (ex *exec) unwrapErr(e iface) iface {
 	if ex.hasMethod(e.t, "Unwrap") == nil {
 		return iface{}
 	}
-	fn := ex.prog.LookupMethod(e.t, nil, "Unwrap")
+	fn := ex.lookupExported(e.t, "Unwrap")
 	if fn == nil || fn.Signature.Results().Len() != 1 {
 		return iface{}
 	}
@@ -272,6 +272,7 @@ func init() {
 		v := ex.nondet("float64", SF64, types.Float64).(sym)
 		// finite reals only (NaN/Inf are outside every claim)
 		ex.assertPC(ex.tt.Not(ex.tt.Or(ex.tt.FIsNaN(v.t), ex.tt.FIsInf(v.t))))
+		ex.tt.nonNaN[v.t.id] = true
 		return v
 	})
 	reg(rtPkg+".String", func(ex *exec, fr *frame, fn *ssa.Function, a []value) value {
@@ -280,6 +281,7 @@ func init() {
 	reg(rtPkg+".UUID", func(ex *exec, fr *frame, fn *ssa.Function, a []value) value {
 		v := ex.nondet("uuid", SStr, types.String).(sym)
 		ex.assertPC(ex.uuidTerm(v.t))
+		ex.assertPC(ex.tt.Eq(ex.tt.StrLen(v.t), ex.tt.BV(SBV64, 36)))
 		return v
 	})
 	reg(rtPkg+".LazyJSON", func(ex *exec, fr *frame, fn *ssa.Function, a []value) value {
@@ -412,7 +414,7 @@ func init() {
 				}
 			}
 			if _, isFake := e.t.(*fakeType); !isFake && ex.hasMethod(e.t, "Is") != nil {
-				if f := ex.prog.LookupMethod(e.t, nil, "Is"); f != nil {
+				if f := ex.lookupExported(e.t, "Is"); f != nil {
 					if ex.truth(ex.call(fr, 0, f, []value{e.v, target})) {
 						return true
 					}
@@ -563,7 +565,13 @@ func init() {
 	// ---------------- regexp ----------------
 	reg("regexp.MustCompile", func(ex *exec, fr *frame, fn *ssa.Function, a []value) value {
 		slot := new(value)
-		*slot = &opaque{kind: "regexp", data: regexp.MustCompile(strArg(a[0]))}
+		pat := strArg(a[0])
+		re, ok := ex.reCache.Load(pat)
+		if !ok {
+			re = regexp.MustCompile(pat)
+			ex.reCache.Store(pat, re)
+		}
+		*slot = &opaque{kind: "regexp", data: re.(*regexp.Regexp)}
 		return slot
 	})
 	reg("(*regexp.Regexp).MatchString", func(ex *exec, fr *frame, fn *ssa.Function, a []value) value {
